@@ -121,6 +121,9 @@ def scalar_exact_value(s, dt):
     import torch
     if s["kind"] == "t0d_other" and dt in ("f64", "c128"):
         return float(torch.tensor(float(s["value"]), dtype=torch.float32))
+    if s["kind"] == "npfloat32":
+        import numpy as np
+        return float(np.float32(s["value"]))
     return scalar_as_complex(s)
 
 
